@@ -1,7 +1,15 @@
 #!/usr/bin/env python3
-"""Prints the markdown table of /verif/seeded (DESIGN.md section 10.11 is generated with it)."""
+"""Prints the markdown table of /verif/seeded (DESIGN.md section 10.11 is generated with it). The last column is the
+verdict of the latest re-run of all kept changes (wip/seeded_regression.py -> wip/seeded-regression.log)."""
 import json, os, re
 root = '/verif/seeded'
+rerun = {}
+log = '/verif/wip/seeded-regression.log'
+if os.path.exists(log):
+    for l in open(log):
+        f = l.split()
+        if len(f) >= 3:
+            rerun[f[0]] = (f[2].lower() + (' ' + f[1].replace('by=', '') if len(f) > 1 else '') + (' (' + f[3] + ')' if len(f) > 3 else ''))
 rows = []
 for name in sorted(os.listdir(root)):
     mp = os.path.join(root, name, 'meta.json')
@@ -10,10 +18,10 @@ for name in sorted(os.listdir(root)):
     m = json.load(open(mp))
     needs = m.get('needs_to_manifest') or m.get('needs') or m.get('what_it_needs') or ''
     what = m.get('summary') or m.get('breaks') or m.get('what') or ''
-    found = m.get('found_by') or m.get('ran') or ''
+    found = m.get('found_by') or m.get('ran') or (m.get('our_checks') or {}).get('detected_by') or ''
     indep = 'independent' if 'independent sub-agent' in (m.get('origin') or '') else 'own'
     clean = lambda s: re.sub(r'\s+', ' ', str(s)).replace('|', '/')[:230]
-    rows.append('| %s | %s | %s | %s | %s |' % (name, indep, clean(what), clean(needs), clean(found)))
-print('| change | origin | what it does | what it needs to manifest | found by |')
-print('|---|---|---|---|---|')
+    rows.append('| %s | %s | %s | %s | %s | %s |' % (name, indep, clean(what), clean(needs), clean(found), rerun.get(name, '')))
+print('| change | origin | what it does | what it needs to manifest | found by | latest re-run (quick) |')
+print('|---|---|---|---|---|---|')
 print('\n'.join(rows))
